@@ -403,7 +403,7 @@ MUTANTS = [
      "note": "not run: mapper and harness evaluation share run_model, so C04 cannot see it by construction; the detailed-column variant is C28's mutant 5, action/energy correctness is C05's subject"},
 ]
 MANIFEST = {
-    "level_text": "For every row returned by map_workload_to_arch(eval_in_detail=False) on N generated small specs the harness rebuilds the mapping and evaluates it with evaluate_mapping on a fresh spec; totals (energy, latency, EDP, per-memory usage), the per-Einsum values of the constituent pmapping-table rows and their sum are compared with the model, and a second run with eval_in_detail=True must return the same mappings with the same numbers. No counterexample found; not a proof.",
+    "level_text": "For every row returned by map_workload_to_arch(eval_in_detail=False) on N generated small specs the harness rebuilds the mapping and evaluates it with evaluate_mapping on a fresh spec; totals (energy, latency, EDP, per-memory usage), the per-Einsum values of the constituent pmapping-table rows and their sum are compared with the model, and a second run with eval_in_detail=True must return (a subset of) the same mappings with the same numbers; a quarter of the specs contain a copy Einsum. No counterexample found; not a proof.",
     "level_note": "Trusted: evaluate_mapping as the model (its own correctness is C05/C06). Per-Einsum comparison needs the pmapping row to be found (label per_einsum_lookup). Domain: temporal-only architectures Main/GLB(/Reg)/MAC, 1-3 Einsums.",
     "technique": "property-based differential testing of the joiner against the model on real mapper output (Hypothesis), with harness-side capture of make_pmappings",
 }
